@@ -53,6 +53,27 @@ Definition search_range (t : list N) (sa : list nat) (p : list N) : nat * nat :=
 Definition search (t : list N) (sa : list nat) (p : list N) : nat * nat :=
   let '(l, r) := search_range t sa p in (l, r - l).
 
+(* src/compression/suffix_array.rs EnhancedSuffixArray::{lower_bound, upper_bound,
+   find_pattern_range}: the same loops over IntVec storage; a rank whose lookup fails
+   (`suffix_at_rank(mid) == None`) moves `right` *)
+Definition w_lower_bound (t : list N) (sa : list nat) (p : list N) : nat :=
+  bsearch (S (length sa))
+    (fun mid => match nth_error sa mid with
+                | Some s => match cmp_sp (skipn s t) p with Lt => true | _ => false end
+                | None => false
+                end) 0 (length sa).
+Definition w_upper_bound (t : list N) (sa : list nat) (p : list N) : nat :=
+  bsearch (S (length sa))
+    (fun mid => match nth_error sa mid with
+                | Some s => match cmp_sp (skipn s t) p with Gt => false | _ => true end
+                | None => false
+                end) 0 (length sa).
+Definition w_find_pattern_range (t : list N) (sa : list nat) (p : list N) : nat * nat :=
+  match p, sa with
+  | [], _ | _, [] => (0, 0)
+  | _, _ => (w_lower_bound t sa p, w_upper_bound t sa p)
+  end.
+
 (* ---------- sort-based constructions ---------- *)
 
 (* sa.sort_by(|a, b| text[a..].cmp(&text[b..])) on (0..n): a comparison sort with the suffix
